@@ -94,7 +94,7 @@ func classOf(e interface{}) string {
 		if len(m) > len(pre) && m[:len(pre)] == pre {
 			m = m[len(pre):]
 		}
-		for _, c := range []string{"index out of range", "slice bounds out of range", "integer divide by zero", "invalid memory address or nil pointer dereference", "assignment to entry in nil map", "interface conversion", "makeslice"} {
+		for _, c := range []string{"index out of range", "slice bounds out of range", "integer divide by zero", "invalid memory address or nil pointer dereference", "assignment to entry in nil map", "interface conversion", "makeslice: len out of range", "makeslice: cap out of range", "makechan: size out of range", "comparing uncomparable type", "hash of unhashable type", "cannot convert slice with length", "close of nil channel", "close of closed channel", "send on closed channel"} {
 			if len(m) >= len(c) && m[:len(c)] == c {
 				return "RE:" + c
 			}
